@@ -151,3 +151,25 @@ func init() {
 	addMutant(mutant{Name: "migrate/copystable-skips-unreadable-key", Fire: []string{"VF-23"},
 		Edits: []edit{{"migrate/migrate.go", "		v, err := src.Get(k)\n		if err != nil {\n			return fmt.Errorf(\"failed to read key %s: %w\", k, err)\n		}", "		v, err := src.Get(k)\n		if err != nil {\n			continue\n		}"}}})
 }
+
+func init() {
+	// obligations added after seeded round 5
+	addMutant(mutant{Name: "fs/create-via-tmp-and-rename", Fire: []string{"ORD-08"},
+		Edits: []edit{{"fs/fs.go", "	f, err := os.OpenFile(filepath.Join(dir, name), os.O_CREATE|os.O_EXCL|os.O_RDWR, os.FileMode(0644))\n	if err != nil {\n		return nil, err\n	}",
+			"	f, err := os.OpenFile(filepath.Join(dir, name+\".tmp\"), os.O_CREATE|os.O_EXCL|os.O_RDWR, os.FileMode(0644))\n	if err != nil {\n		return nil, err\n	}\n	if err := os.Rename(filepath.Join(dir, name+\".tmp\"), filepath.Join(dir, name)); err != nil {\n		return nil, err\n	}"}}})
+	addMutant(mutant{Name: "silent/setuint64-encode-helper-local-array", Silent: true,
+		Edits: []edit{{"wal.go", "	var buf [8]byte\n	binary.LittleEndian.PutUint64(buf[:], val)\n	return w.Set(key, buf[:])", "	return w.Set(key, encodeU64(val))"},
+			{"wal.go", "func (w *WAL) triggerRotateLocked(", "func encodeU64(val uint64) []byte {\n	var buf [8]byte\n	binary.LittleEndian.PutUint64(buf[:], val)\n	return buf[:]\n}\n\nfunc (w *WAL) triggerRotateLocked("}}})
+	addMutant(mutant{Name: "wal/setuint64-returns-pooled-buffer", Fire: []string{"VF-24"},
+		Edits: []edit{{"wal.go", "	var buf [8]byte\n	binary.LittleEndian.PutUint64(buf[:], val)\n	return w.Set(key, buf[:])", "	return w.Set(key, encodeU64(val))"},
+			{"wal.go", "func (w *WAL) triggerRotateLocked(", "var u64Pool = sync.Pool{New: func() interface{} { return new([8]byte) }}\n\nfunc encodeU64(val uint64) []byte {\n	buf := u64Pool.Get().(*[8]byte)\n	defer u64Pool.Put(buf)\n	binary.LittleEndian.PutUint64(buf[:], val)\n	return buf[:]\n}\n\nfunc (w *WAL) triggerRotateLocked("}}})
+	addMutant(mutant{Name: "reader/bytes-of-closed-buffer-copied-later", Fire: []string{"VF-22"},
+		Edits: []edit{{"segment/reader.go", "	// Need to read again, with a bigger buffer, return this one\n	buf.Close()\n", "	head := buf.Bs[frameHeaderLen:]\n	buf.Close()\n"},
+			{"segment/reader.go", "	if _, err := r.rf.ReadAt(buf.Bs, int64(offset+frameHeaderLen)); err != nil {", "	n = copy(buf.Bs, head)\n	if _, err := r.rf.ReadAt(buf.Bs[n:], int64(offset)+int64(frameHeaderLen+n)); err != nil {"}}})
+	addMutant(mutant{Name: "recovery/indexstart-from-record-without-header-len", Fire: []string{"TAB-03"},
+		Edits: []edit{{"segment/writer.go", "			w.writer.indexStart = uint64(offset) + frameHeaderLen\n", "			pendingIndex = uint64(offset)\n"},
+			{"segment/writer.go", "	offsets := make([]uint32, 0, 32*1024)\n\n	readInfo, err := readThroughSegment(", "	offsets := make([]uint32, 0, 32*1024)\n	var pendingIndex uint64\n	defer func() {\n		if pendingIndex != 0 {\n			w.writer.indexStart = pendingIndex\n		}\n	}()\n\n	readInfo, err := readThroughSegment("}}})
+	addMutant(mutant{Name: "wal/deleterange-skips-rotation-wait-for-head", Fire: []string{"ORD-15"},
+		Edits: []edit{{"wal.go", "	// Ensure queued rotation has completed before us if we raced with it for\n	// write lock.\n	w.awaitRotationLocked()\n\n	// Close may have completed while we waited for the lock or the rotation.\n	if err := w.checkClosed(); err != nil {\n		return err\n	}\n\n	s, release := w.acquireState()\n	defer release()\n\n	// Work out what type of truncation this is.",
+			"	if err := w.checkClosed(); err != nil {\n		return err\n	}\n	if min > w.loadState().firstIndex() {\n		w.awaitRotationLocked()\n		if err := w.checkClosed(); err != nil {\n			return err\n		}\n	}\n\n	s, release := w.acquireState()\n	defer release()\n\n	// Work out what type of truncation this is."}}})
+}
